@@ -23,7 +23,7 @@ from vmon.props.c11 import solo_result
 
 LEVEL = "exploration"
 SHARDS = {"quick": 16, "thorough": 16}
-MUST = ["spelling.styles", "trivia.comment", "trivia.pi", "trivia.whitespace", "trivia.paths_probed", "special_names.loads", "load.forms_rotated", "load.form.str-path", "load.form.Path", "load.form.open-file", "load.form.load_xml-or-stream", "layout.one-line", "layout.crlf", "layout.blank-lines", "layout.tabs", "layout.no-indent", "layout.entities", "history.runs", "history.directed_pairs", "history.failed_prior_loads",
+MUST = ["spelling.styles", "trivia.comment", "trivia.pi", "trivia.whitespace", "trivia.paths_probed", "special_names.loads", "load.forms_rotated", "load.form.str-path", "load.form.Path", "load.form.open-file", "load.form.load_xml-or-stream", "layout.one-line", "layout.crlf", "layout.blank-lines", "layout.tabs", "layout.no-indent", "layout.entities", "history.runs", "history.same_path_same_stat", "spelling.namespace_bound_twice", "history.directed_pairs", "history.failed_prior_loads",
         "history.style_changes", "baseline.fresh_process", "path.ContextCalibratorList", "path.BaseContainer", "path.EntryList", "path.ComparisonList"]
 RULE = ("case = (document IR, rendering = namespace convention x trivia placement, history of prior loads); fingerprint "
         "(canonical written XML + decode of steered packets) must equal the baseline. Renderings: 15 namespace conventions; inter-element whitespace layouts "
@@ -69,7 +69,8 @@ def fingerprint(defn, doc, packets):
     canon = reader.normalize(reader.read_xml(w))
     dec = [solo_result(defn, raw) for raw in packets]
     return hashlib.sha256(repr((sorted(canon["types"].items()), sorted(canon["params"].items()), sorted(canon["containers"].items()),
-                                canon.get("system"), getattr(defn, "space_system_name", None), dec)).encode()).hexdigest()
+                                canon.get("system"), getattr(defn, "space_system_name", None),
+                                tuple(getattr(defn, a_, None) for a_ in ("date", "xtce_version", "validation_status")), dec)).encode()).hexdigest()
 
 
 _FORM = {"n": 0, "dir": None}
@@ -211,6 +212,10 @@ def directed_pairs():
                             ir.Container("Base", (("c", "Inner"),), "CCSDSPacket", (ir.Comparison("TYPE", "0"),)),
                             ir.Container("CCSDSPacket", hdr), ir.Container("Inner", (("p", "X"),) * (2 if twice else 1)))))
     pairs.append(("same-names-different-content", docs[0], docs[1], bytes(P.create_ccsds_packet(b"\xab\xcd\x05"))))
+    # 4: header metadata: one document states date / version / validation status, the other has a Header without a date
+    import dataclasses
+    pairs.append(("header-with-and-without-date", dataclasses.replace(docs[0], date="2031-05-06T07:08:09", version="3.1", validation="Released"),
+                  dataclasses.replace(docs[0], date=None), bytes(P.create_ccsds_packet(b"\xab\xcd\x05"))))
     return pairs
 
 
@@ -219,6 +224,44 @@ def directed_fresh(k, role):
     name, a, b, raw = directed_pairs()[k]
     d = (a, b)[role]
     return load_fp(render.render_doc(d), ("prefix", "xtce"), d, [raw])
+
+
+def same_path_same_stat(ctx):
+    """two different documents loaded one after the other from the SAME path, the second written with the same byte length and the
+    same time stamps as the first (a rewrite within the file system's time-stamp granularity, an mtime-preserving copy): each load gives
+    the document that is in the file"""
+    import pathlib
+    import shutil
+    import tempfile
+    from space_packet_parser.xtce.definitions import XtcePacketDefinition
+    d = tempfile.mkdtemp(prefix="vmon-c16-", dir=os.environ.get("VMON_SCRATCH"))
+    try:
+        for k, (name, a, b, raw) in enumerate(directed_pairs()):
+            xa, xb = render.render_doc(a), render.render_doc(b)
+            n = max(len(xa), len(xb))
+            xa, xb = xa + b"\n" * (n - len(xa)), xb + b"\n" * (n - len(xb))
+            want = [monitored(lambda x=x, dd=dd: fingerprint(load_definition(x, "xtce"), dd, [raw])) for x, dd in ((xa, a), (xb, b))]
+            path = os.path.join(d, f"same-{k}.xml")
+            for step, role in enumerate((0, 1, 0)):
+                with open(path, "wb") as f:
+                    f.write((xa, xb)[role])
+                if step == 0:
+                    st0 = os.stat(path)
+                else:
+                    os.utime(path, ns=(st0.st_atime_ns, st0.st_mtime_ns))
+                got = monitored(lambda: fingerprint(XtcePacketDefinition.from_xtce(path if step % 2 == 0 else pathlib.Path(path), xtce_ns_prefix="xtce"), (a, b)[role], [raw]))
+                ctx.count("evaluations")
+                ctx.count("history.same_path_same_stat")
+                ctx.sig("history", "same-path-same-stat", name, step)
+                if want[role].exc is not None:
+                    continue
+                if got.exc is not None or got.value != want[role].value:
+                    ctx.violation(f"history/same-path-same-size-and-mtime/{name}/{'ok' if got.exc is None else type(got.exc).__name__}",
+                                  f"'{name}': document {role} loaded from a path that held the other document before (same byte length, same time stamps) "
+                                  f"does not give that document's definition ({got.exc!r})", {"pair": name, "step": step})
+                    break
+    finally:
+        shutil.rmtree(d, ignore_errors=True)
 
 
 def directed_histories(ctx):
@@ -260,6 +303,8 @@ def run(ctx):
     import random
     if ctx.shard % 4 == 1:
         directed_histories(ctx)        # first thing in this worker process, before anything else has been loaded
+    if ctx.shard % 4 == 2:
+        same_path_same_stat(ctx)
     states = set()
     ids = [i for i in range(ctx.size(48, 2000)) if ctx.mine(i)]
     probed_paths = set()
@@ -303,6 +348,25 @@ def run(ctx):
             if fp != base:
                 ctx.violation(f"spelling/namespace/{style[0]}{'-' + style[1] if len(style) > 1 and style[1] != 'xtce' else ''}/{fp[0]}{'/' + fp[1] if fp[0] != 'ok' else ''}",
                               f"rendering with namespace convention {style} gives {fp[:2]} instead of the baseline definition", {"doc": i, "style": style, "result": fp})
+        # ---- (a) the XTCE namespace bound twice on the root (default + prefix, or two prefixes): the elements are spelled with one binding,
+        #          the caller names the other one - a valid key of the document's namespace map that resolves to the same URI
+        for style in (("default",), ("prefix", "q")):
+            xml = render.render_doc(doc, ns_style=style)
+            import re as _re
+            m = _re.search(rb"<(?:q:)?SpaceSystem\b[^>]*", xml)
+            if m is None:
+                from vmon.core import HarnessError
+                raise HarnessError("root start tag not found")
+            uri = _re.search(rb'xmlns(?::q)?="([^"]+)"', m.group(0)).group(1)
+            xml2 = xml[:m.end()] + b' xmlns:xtce="' + uri + b'"' + xml[m.end():]
+            fp = load_fp(xml2, ("prefix", "xtce"), doc, packets)
+            ctx.count("evaluations")
+            ctx.count("spelling.namespace_bound_twice")
+            ctx.sig("style", "bound-twice", style[0])
+            if fp != base:
+                ctx.violation(f"spelling/namespace/bound-twice-{style[0]}/{fp[0]}{'/' + fp[1] if fp[0] != 'ok' else ''}",
+                              f"XTCE namespace bound twice (elements spelled with the {style} binding, xtce_ns_prefix='xtce' naming the other) gives {fp[:2]} instead of the baseline definition",
+                              {"doc": i, "style": style, "result": fp})
         # ---- (a) inter-element whitespace layouts: none at all (whole document on one line), CRLF, blank lines, tabs ------
         for li, layout in enumerate(LAYOUTS):
             style = STYLES[(i + li) % len(STYLES)] if li % 2 else (("prefix", "xtce"), ("default",), ("none",))[(i + li) % 3]
